@@ -460,6 +460,11 @@ def _type_ops():
         ("packet-missing-attribute", "family-missing", packet_mut(lambda sp, p, pk, r: setattr(pk, "family", None))),
         ("packet-missing-attribute", "action-missing", packet_mut(lambda sp, p, pk, r: setattr(pk, "action", None))),
     ]
+    # appended last (the operators share one random stream per tree): ordinals spelled as prefixed Python literals
+    ops += [
+        ("malformed-enum-value", "ordinal-hex-literal", used_enum_mut(lambda e, r, sp: set_ordinal(e, r, sp, "0x10") if e.values else False)),
+        ("malformed-enum-value", "ordinal-binary-or-octal-literal", used_enum_mut(lambda e, r, sp: set_ordinal(e, r, sp, r.choice(["0b11", "0o7", "0X1f"])) if e.values else False)),
+    ]
     return ops
 
 
